@@ -63,7 +63,7 @@ Proof. vm_compute. repeat split. Qed.
 (** * Parsers over a file: [file := N -> N] is the byte at every offset (a
     finite byte string is zero from its length on), [alim] the largest
     allocation that succeeds.  The models are the *repaired* code (fix
-    patches 08, 09, 10, 15, 33, 50, 62, 70-77); [repaired = false] selects the
+    patches 08, 09, 10, 15, 33, 50, 62, 70-79); [repaired = false] selects the
     pinned tree's logic where a [_refuted] witness is stated. *)
 From KdV Require Import Parse.Bounded Parse.NotesModel Parse.ElfModel Parse.FlatModel Parse.SizesModel
      Parse.ProbeModel Parse.BoundedProofs Parse.NotesProofs Parse.ElfProofs Parse.FlatProofs
@@ -93,8 +93,8 @@ Print Assumptions C03_note_names_in_bounds.
 (** ** (b) ELF probe (elfdump.c): header, program/section header tables with
     file-controlled entry sizes and counts, extended numbering, string table,
     first walk over the PT_NOTE segments *)
-Theorem C03_elf_in_bounds : forall alim f, is_ub (elf_probe alim f) = false.
-Proof. exact (fun alim f => proj1 (elf_probe_good alim f)). Qed.
+Theorem C03_elf_in_bounds : forall alim f flen, is_ub (elf_probe alim f flen) = false.
+Proof. exact (fun alim f flen => proj1 (elf_probe_good alim f flen)). Qed.
 Print Assumptions C03_elf_in_bounds.
 
 (** PARTIAL: the table loops run exactly [e_phnum] / [e_shnum] (or the
@@ -102,8 +102,8 @@ Print Assumptions C03_elf_in_bounds.
     allocator granted for the two arrays, not by the length of the file, so
     "time proportional to the input" is *not* shown for them (DESIGN 9/C03;
     recorded as an open finding class when it shows up as a timeout) *)
-Theorem C03_elf_linear_fuel_partial : forall alim f, elf_probe alim f <> OutOfFuel.
-Proof. exact (fun alim f => proj1 (proj2 (elf_probe_good alim f))). Qed.
+Theorem C03_elf_linear_fuel_partial : forall alim f flen, elf_probe alim f flen <> OutOfFuel.
+Proof. exact (fun alim f flen => proj1 (proj2 (elf_probe_good alim f flen))). Qed.
 Print Assumptions C03_elf_linear_fuel_partial.
 
 (** ** (d) flattened files (flatmap.c) *)
@@ -224,7 +224,7 @@ Definition ex_file (l : list N) : file := fun p => nth (N.to_nat p) l 0.
 
 Example C03_nonvacuous_parsers :
   (* an ELF64 core with one program header of entry size 0 (item 15) *)
-  elf_probe 1000000 (ex_file ex_elf_hdr) = Err KCORRUPT (StHdrSize false 0) /\
+  elf_probe 1000000 (ex_file ex_elf_hdr) 64 = Err KCORRUPT (StHdrSize false 0) /\
   (* a QEMU snapshot is recognised and refused; an empty file falls through to the unmodelled probes *)
   open_dump true 1000000 (ex_file [81;69;86;77]) 4 = Err KNOTIMPL (StOther 10) /\
   open_dump true 1000000 (ex_file []) 0 = Ok (OiProbe PoBeyond) /\
